@@ -49,8 +49,16 @@ def dens_defn(el):
 
 
 def dens_fs_defn(a, b):
-    c = 1.0 + 0.37 * (8 * idx(a) + idx(b))
-    return D(('>=', 0.0, form('exp_spline', 0.1 * c, -1.1, 0.02, 0.0, 0.0, 0.0, 0.0)))
+    """three shapes, all injective in (a, b): a coded single-range function; one COMMON function switched off at a coded separation
+    (entries that differ only in their range boundaries); a function that is explicitly zero at short range and coded beyond"""
+    k = 8 * idx(a) + idx(b)
+    c = 1.0 + 0.37 * k
+    coded = form('exp_spline', 0.1 * c, -1.1, 0.02, 0.0, 0.0, 0.0, 0.0)
+    if k % 3 == 1:
+        return D(('>=', 0.0, form('exp_spline', 0.5, -1.1, 0.02, 0.0, 0.0, 0.0, 0.0)), ('>=', 0.35 + 0.045 * k, form('zero')))
+    if k % 3 == 2:
+        return D(('>=', 0.0, form('zero')), ('>=', 0.15 + 0.02 * k, coded), ('>=', 40.0, form('zero')))
+    return D(('>=', 0.0, coded))
 
 
 def _pk(a, b):
